@@ -97,15 +97,15 @@ Proof.
   destruct (raw_private_op_spec b u m H) as [b' [u' [-> _]]]. reflexivity.
 Qed.
 
-Lemma decrypt_independent_of_blinding_all hash hmac st1 st2 d enc :
+Lemma decrypt_independent_of_blinding_all hash hmac st1 st2 d cache enc :
   (forall k m, zlen (hmac k m) = 32) -> (forall k m, all_bytes (hmac k m) = true) ->
-  11 <= numBytes n <= 65535 -> 0 <= d -> state_ok st1 -> state_ok st2 ->
-  decrypt hash hmac (raw_of st1) true n d "rsa"%string enc =
-  decrypt hash hmac (raw_of st2) true n d "rsa"%string enc /\
-  decrypt hash hmac (raw_of st1) true n d "rsa"%string enc =
+  11 <= numBytes n <= 65535 -> 0 <= d -> cache_ok hash n d cache -> state_ok st1 -> state_ok st2 ->
+  decrypt hash hmac (raw_of st1) true n d "rsa"%string cache enc =
+  decrypt hash hmac (raw_of st2) true n d "rsa"%string cache enc /\
+  decrypt hash hmac (raw_of st1) true n d "rsa"%string cache enc =
   Ok (spec_decrypt hash hmac (fun m => helper m mod n) n d enc).
 Proof.
-  intros H1 H2 Hk Hd S1 S2.
+  intros H1 H2 Hk Hd Hc S1 S2.
   assert (R : forall st, state_ok st -> forall m, 0 <= raw_of st m).
   { intros st S m. rewrite raw_of_spec by exact S. apply Z.mod_pos_bound. lia. }
   rewrite !(decrypt_eq_spec_all hash hmac _ H1 H2) by (try apply R; assumption).
